@@ -58,6 +58,12 @@ func main() {
 	if r.Thorough() {
 		macro = "macro3"
 	}
+	// a correct node cut off for K failed rounds, the Byzantine validator falling silent, then the network heals
+	lag := "lagging2"
+	if r.Thorough() {
+		lag = "lagging3"
+	}
+	scen = append(scen, netsim.Scenario{Cfg: mk("4x1-lagging-node-"+lag, one, netsim.Config{Byz: []int{3}, NoByzMenu: true, Driver: lag}), Bound: b - 1})
 	scen = append(scen, netsim.Scenario{Cfg: mk("4x1-"+macro+"-round-shapes", one, netsim.Config{Byz: []int{3}, NoByzMenu: true, Driver: macro}), Bound: 0})
 	// one correct validator, every arrival order of proposal / parts / +2/3 prevotes / +2/3 precommits of a decided block
 	for _, turn := range []int{2, 3} {
